@@ -113,8 +113,9 @@ pub fn run(args: &Args) -> i32 {
 
     // hook-free: t_inner / t_outer of fitted tracks, and the per-track t of primary vertices
     let vx = [[0.0, 0.0], [0.012, -0.02], [-0.03, 0.01], [0.02, 0.02]];
-    rep.run("fitted-tracks-and-vertices", 4 * 9 * 5, 600, true, "vertex position (4, on and off the axis and the x = y diagonal) x z (9) x pitch class (5: 0, tiny, small, medium, large): 3 ideal tracks are fitted (Track::try_from), t_inner / t_outer are judged against the innermost / outermost point of the cluster, find_vertices' per-track t against the reported vertex position", |idx, loc| {
-        let d = unrank(idx, &[4, 9, 5]);
+    rep.run("fitted-tracks-and-vertices", 4 * 9 * 5 * 2, 600, true, "vertex position (4, on and off the axis and the x = y diagonal) x z (9) x pitch class (5: 0, tiny, small, medium, large) x {exact helix points, points displaced by 2 mm in z and 0.5 mm in r}: 3 tracks are fitted (Track::try_from), t_inner / t_outer are judged against the innermost / outermost point of the cluster, find_vertices' per-track t against the reported vertex position", |idx, loc| {
+        let d = unrank(idx, &[4, 9, 5, 2]);
+        let noisy = d[3] == 1;
         let v = [vx[d[0] as usize][0], vx[d[0] as usize][1], -0.8 + 0.2 * d[1] as f64];
         let lambda = [0.0, 1e-12, 0.02, 0.3, 0.8][d[2] as usize];
         let mut tracks = Vec::new();
@@ -123,6 +124,8 @@ pub fn run(args: &Args) -> i32 {
             if pts.len() < 13 {
                 continue;
             }
+            // noisy variant: the end points do not sit on the fitted helix (2 mm in z, 0.5 mm in r, fixed pattern)
+            let pts: Vec<_> = if noisy { pts.iter().enumerate().map(|(i, p)| sp(p.r.value + 0.0005 * ((i * 7) % 3) as f64 - 0.0005, p.phi.value, p.z.value + if i % 2 == 0 { 0.002 } else { -0.002 })).collect() } else { pts };
             let inner = pts.iter().min_by(|a, b| a.r.partial_cmp(&b.r).unwrap()).copied().unwrap();
             let outer = pts.iter().max_by(|a, b| a.r.partial_cmp(&b.r).unwrap()).copied().unwrap();
             match fit(pts) {
